@@ -309,7 +309,7 @@ func c08Replay(t *c08Transcript, f c08Fault, s2cMode rig.Mode, chunkSeed uint64)
 func c08Judge(c *wk.Ctx, t *c08Transcript, f c08Fault, res *c08Outcome, wit map[string]any) {
 	switch res.monitor.Outcome {
 	case "inconclusive":
-		c.Inconclusive(fmt.Sprintf("%v: watchdog fired; running: %v", wit, res.monitor.Verdict.RunningDescr))
+		c.Inconclusive(fmt.Sprintf("%v: watchdog fired; running: %v", wit, res.monitor.Verdict.RunningDescr) + snapSummary(res.monitor.Snap))
 		return
 	case "deadlock":
 		var blocked []string
@@ -351,8 +351,8 @@ func c08Judge(c *wk.Ctx, t *c08Transcript, f c08Fault, res *c08Outcome, wit map[
 		c.Violation("C08:readschema-spurious-failure", fmt.Sprintf("hello arrived intact but ReadSchema failed: %v", res.readSchemaErr), wit)
 	}
 	for _, e := range res.execs {
-		if e.Returned != 1 {
-			c.Violation("C08:execute-return-count", fmt.Sprintf("Execute(%s) returned %d times", e.Spec.RunID, e.Returned), wit)
+		if atomic.LoadInt32(&e.Returned) != 1 {
+			c.Violation("C08:execute-return-count", fmt.Sprintf("Execute(%s) returned %d times", e.Spec.RunID, atomic.LoadInt32(&e.Returned)), wit)
 			continue
 		}
 		c.Count("executes_judged")
